@@ -68,8 +68,106 @@ def known_classifier(call, func):
     return None
 
 
+# ---- traceback line after a finally clause (GEN + CIR, exception machinery of C22) -----------------------------------------------------
+FL_TEMPLATE = """# cython: language_level=3
+def fin_line(f, g):
+    try:
+        f()
+    finally:
+        try:
+            g()
+        except ValueError:
+            pass
+    return f
+"""
+FL_LINE_F, FL_LINE_G = 4, 7
+FL_REPLAY = r"""
+import sys, traceback
+sys.path.insert(0, %(dir)r)
+import %(mod)s as M
+def f(): raise KeyError('f')
+def g(): raise ValueError('g')
+bad = []
+try:
+    M.fin_line(f, g)
+    bad.append('no exception')
+except KeyError as e:
+    lines = [fr.lineno for fr in traceback.extract_tb(e.__traceback__) if fr.name.split('.')[-1] == 'fin_line']
+    allf = [(fr.name, fr.lineno) for fr in traceback.extract_tb(e.__traceback__)]
+    if lines != [%(line)d]: bad.append(('traceback lines of fin_line', lines, allf))
+print('REPLAY-REPRODUCED' if bad else 'REPLAY-HOLDS', bad)
+"""
+
+
+def run_finline(rep, tier):
+    """the exception that is re-raised after a finally clause is reported at the line where it was raised, also when the clause handled an exception of its own in between"""
+    import subprocess
+    from ..gen import harness
+    from ..cir import build, solve, stubs, ir, symex as csym
+    from . import C22, C35
+    Bt = harness.build_template('c44ln', FL_TEMPLATE)
+    C22._B = Bt
+    C35._B = Bt
+    rep.functions.append('generated code of a try/finally whose finally clause handles an exception of its own (Nodes.TryFinallyStatNode.put_error_catcher / put_error_uncatcher: '
+                         'saving and restoring __pyx_lineno / __pyx_clineno / __pyx_filename) up to the __Pyx_AddTraceback call [%s]' % build.sha(Bt.cfile))
+    rep.bounds.append('fin_line kernel: every combination of success / failure of the two calls, of the exception match and of the C-API calls of the handler; __Pyx_AddTraceback is an '
+                      'event carrying the line it is given; outside: other shapes of finally clauses, the frame / traceback objects built by __Pyx_AddTraceback')
+    name = 'fin_line: the exception re-raised after the finally clause is reported at the line of the call that raised it (line %d), whatever happened inside the clause' % FL_LINE_F
+    t0 = time.time()
+    try:
+        ex, env = Bt.new_exec(unroll=3)
+        tr = C22.ExcTracker(ex, env)
+        tr.install()
+        for g_ in ('_Py_NoneStruct', '_Py_TrueStruct', '_Py_FalseStruct'):
+            p = ex.global_ptr(g_)
+            ex.regions[next(iter(p.regions))].fields[stubs.OB_REFCNT] = (8, z3.BitVecVal(0xFFFFFFFF, 64))
+        msr = ex.regions[next(iter(ex.global_ptr('__pyx_mstate_global_static').regions))]
+        msr.fields.clear()
+        msr.lazy = True
+        tbs = []
+        ex.stubs['__Pyx_AddTraceback'] = lambda ex_, g, a, rt, c: tbs.append((g, a[2]))
+        args = [tr.arg('arg%d' % i) for i in range(2)]
+        ret, rg = ex.run(C35.fname_of(Bt, 'pf', 'fin_line'), [csym.NULLPTR] + args)
+    except (csym.Unsupported, ir.ParseError, KeyError, IndexError) as e:
+        rep.obligation(name, 'inconclusive', time.time() - t0, True, 'Unsupported: %s' % str(e)[:300])
+        return
+    pre = list(ex.assumptions)
+    T = int(os.environ.get('VF_QTIMEOUT', '120'))
+    reraised = z3.BoolVal(False)
+    for (g, p) in tr.restored:
+        for ok, first in tr.fetched:
+            reraised = z3.Or(reraised, z3.And(g, ok, p.bv == z3.BitVecVal(first.base, 64)))
+    okline = z3.And(*[z3.Implies(g, ln == FL_LINE_F) for g, ln in tbs]) if tbs else z3.BoolVal(True)
+    anyline = z3.And(*[z3.Implies(g, z3.Or(ln == FL_LINE_F, ln == FL_LINE_G)) for g, ln in tbs]) if tbs else z3.BoolVal(True)
+    matched = [f for f in tr.flags if 'ExceptionMatches' in str(f)]
+    r, m, s = solve.check(pre + [rg, reraised, z3.Not(okline)], T)
+    if r == 'sat':
+        try:
+            so = build.native(Bt.cfile)
+            pr = subprocess.run(['/verif/.venv/bin/python', '-c', FL_REPLAY % dict(dir=os.path.dirname(so), mod=Bt.name, line=FL_LINE_F)], capture_output=True, text=True, timeout=120)
+            txt = (pr.stdout + pr.stderr).strip()[-400:]
+        except build.BuildError as e:
+            txt = 'native build failed: %s' % e
+        rep.validated += 1
+        if 'REPLAY-REPRODUCED' in txt:
+            rep.obligation(name, 'refuted', s, True, txt)
+            rep.violation('%s: f raises KeyError, g raises ValueError (handled inside the finally clause): %s' % (name, txt), dict(kernel='fin_line', replay_output=txt))
+        else:
+            rep.obligation(name, 'inconclusive', s, True, 'counterexample did not reproduce: %s' % txt[:200])
+    else:
+        rep.obligation(name, 'proved' if r == 'unsat' else 'inconclusive', s, True, None)
+    r, m, s = solve.check(pre + [rg, z3.Not(anyline)], T)
+    rep.obligation('fin_line: every traceback entry carries the line of one of the two calls', {'unsat': 'proved', 'sat': 'refuted'}.get(r, 'inconclusive'), s, False, None)
+    r, m, s = solve.check(pre + [rg, reraised] + ([z3.Or(*[f == 1 for f in matched])] if matched else []), T)
+    rep.obligation('fin_line: reach: re-raise after the finally clause caught and handled its own exception', {'sat': 'witness', 'unsat': 'vacuous'}.get(r, 'inconclusive'), s, True, None)
+
+
 def run(rep, tier, only=None):
     root = snapshot.activate()
+    if not only or 'finline' in only:
+        run_finline(rep, tier)
+        if only and 'finline' in only:
+            return
     if not only or 'codeobj' in only:
         run_codeobj(rep, tier)
         if only and 'codeobj' in only:
